@@ -208,6 +208,9 @@ pub fn run_batch(
                 }
                 "lost_control" => {
                     bs.lost_control += 1;
+                    if bs.crash_examples.len() < 5 {
+                        bs.crash_examples.push(format!("run {} (seed {}): no result within the wall-clock limit", i, seed_for(base, stream, i)));
+                    }
                     consecutive_lost += 1;
                     // many runs stall on something the simulator cannot see (a lock held across tick sites):
                     // stop pre-empting inside calls for the rest of this invocation, keep judging at call granularity
@@ -712,7 +715,7 @@ pub fn check(o: &CheckOpts) -> i32 {
 
     // ---- determinism self-check (reported, never a verdict)
     let det_n = ((t.det_seeds as f64) * o.scale).max(20.0) as usize;
-    let det_tmo = Duration::from_millis(800);
+    let det_tmo = Duration::from_millis(2000);
     let d16 = run_batch("det_w16", &pool, &ix, o.seed, 11, RunKind::Short, det_n, w, det_tmo, None, true, 0, 1000, false);
     let mut degraded = d16.degraded;
     let d4 = run_batch("det_w4", &pool, &ix, o.seed, 11, RunKind::Short, det_n, 4.min(w), det_tmo, None, true, 0, 1000, degraded);
@@ -748,10 +751,10 @@ pub fn check(o: &CheckOpts) -> i32 {
     let mut batches: Vec<BatchStats> = Vec::new();
     let short_n = ((t.short_runs as f64) * o.scale) as usize;
     let deadline = Instant::now() + Duration::from_secs(((t.short_budget_s as f64) * o.scale.max(0.2)) as u64 + 1);
-    let short = run_batch("short_swarm", &pool, &ix, o.seed, 1, RunKind::Short, short_n, w, Duration::from_millis(800), Some(deadline), false, 4, 8, degraded);
+    let short = run_batch("short_swarm", &pool, &ix, o.seed, 1, RunKind::Short, short_n, w, Duration::from_millis(2000), Some(deadline), false, 4, 8, degraded);
     degraded |= short.degraded;
     let wide_n = ((t.wide_runs as f64) * o.scale) as usize;
-    let wide = run_batch("wide_16_threads", &pool, &ix, o.seed, 2, RunKind::Wide, wide_n, w, Duration::from_millis(2000), Some(Instant::now() + Duration::from_secs(if t.name == "thorough" { 120 } else { 10 })), false, 1, 8, degraded);
+    let wide = run_batch("wide_16_threads", &pool, &ix, o.seed, 2, RunKind::Wide, wide_n, w, Duration::from_millis(4000), Some(Instant::now() + Duration::from_secs(if t.name == "thorough" { 120 } else { 10 })), false, 1, 8, degraded);
     let long_calls = ((t.long_calls as f64) * o.scale.min(1.0)).max(200.0) as usize;
     let long = run_batch(
         "long_history",
@@ -1064,7 +1067,17 @@ pub fn replay(path: &str, workers: usize) -> i32 {
             .iter()
             .filter_map(|r| if let oracle::Iso::Done { outcome, .. } = r { Some(outcome.encode()) } else { None })
             .collect();
-        println!("8 isolated evaluations gave {} distinct outcome(s): {:?}", outs.len(), outs);
+        let mut outs = outs;
+        // and once more in an exec'd process with another environment / address-space layout
+        let verif = std::path::Path::new(path).parent().and_then(|p| p.parent()).map(|p| p.display().to_string()).unwrap_or_else(|| "/verif".into());
+        if let Ok(lines) = oracle::ambient_eval(&[call.clone()], &format!("{}/.work", verif), workers, 1) {
+            for l in lines {
+                if !l.starts_with("novalue") {
+                    outs.insert(l.replace("\\n", "\n"));
+                }
+            }
+        }
+        println!("8 isolated evaluations + 1 in an exec'd process with scrambled environment gave {} distinct outcome(s): {:?}", outs.len(), outs);
         if outs.len() > 1 {
             println!("VIOLATION property=C16 replay={}", path);
             return 1;
